@@ -145,7 +145,23 @@ def finding_key(case, failure):
 
 
 def replay(case, failure):
-    return replay_concrete(harness_for(case), failure, allowed_exceptions=EXC)
+    rep = replay_concrete(harness_for(case), failure, allowed_exceptions=EXC)
+    if rep.get("reproduced"):
+        return rep
+    from checks.pipeline_common import integerish_variants, collinear_variant
+    import fractions
+
+    col = collinear_variant(failure.get("inputs") or {}, case.get("ndigits", 3))
+    col = {k: str(fractions.Fraction(v)) if not isinstance(v, str) or "/" not in v else v for k, v in col.items()}
+    for inp in list(integerish_variants(failure.get("inputs") or {})) + [col]:
+        f2 = dict(failure)
+        f2["inputs"] = inp
+        f2.pop("alt_inputs", None)
+        r2 = replay_concrete(harness_for(case), f2, allowed_exceptions=EXC)
+        if r2.get("reproduced"):
+            r2["detail"] = "integer/exponent-form battery: " + r2["detail"]
+            return r2
+    return rep
 
 
 def describe(tier):
